@@ -293,11 +293,13 @@ fn check_keepalive(c: &Case, addr: std::net::SocketAddr, ctx: Option<&Ctx>) -> V
     fails
 }
 
-const SEGS: &[&str] = &["a", "b", "ab", "api", "x", "aa"];
+// two non-ASCII segments: matching counts characters, not bytes (seed C04-16: an early length rejection that compares a
+// byte length with a character count lets `/é` fall through to a later route)
+const SEGS: &[&str] = &["a", "b", "ab", "api", "x", "aa", "é", "日本"];
 
 /// request paths also use segments with a literal `*` (an ordinary character in a request target: only a pattern's `*`
 /// can absorb it)
-const REQ_SEGS: &[&str] = &["a", "b", "ab", "api", "x", "aa", "*", "a*", "*b"];
+const REQ_SEGS: &[&str] = &["a", "b", "ab", "api", "x", "aa", "*", "a*", "*b", "é", "日本"];
 
 fn arb_req_path() -> impl Strategy<Value = String> {
     proptest::collection::vec((0usize..REQ_SEGS.len()).prop_map(|i| REQ_SEGS[i]), 0..4).prop_map(|v| format!("/{}", v.join("/")))
